@@ -131,7 +131,14 @@ def correspondence(ctx):
                  "finished link has the materials of the second start (harness digests) and a layout matching the deliverables against it "
                  "verifies. verify-in-unwritable-directory (every second chain): verify where <inspection>.link cannot be written - a "
                  "directory of that name exists, or the cwd has mode 0555 and the binary runs as uid 65534 - honest and with a tampered "
-                 "product; the verdict must be the library's in a writable copy of the same files. sign-verify/duplicate-keyid: the layout signed with `sign`, a signed field edited, signed "
+                 "product; the verdict must be the library's in a writable copy of the same files. verify/every-key-flag-spelling-counts (every third chain): the key-list flags are read from `verify --help`; a stranger's "
+                 "key under one spelling plus the signers' under another (all ordered pairs) must be rejected, the signers' keys split over two "
+                 "spellings accepted. verify/layout-valid-for-verification-only (every third chain): layouts with an unused key of unknown scheme / "
+                 "with a private part, a step or inspection with empty _type, signed by the harness: CLI = library, tampered twins rejected. "
+                 "metadata-directory-name-reused-below (every fifth chain): -d links|meta|out with artifacts site/<name>/index.html and "
+                 "<name>.txt: listed in the link; a layout REQUIRing such a file verifies, tampering is rejected. "
+                 "match-products/mixed-algorithm-link: products recorded with {sha256} and {sha256,sha512}, files untouched: CLI = library called "
+                 "with sha256, and the sha256-only file is not reported. sign-verify/duplicate-keyid: the layout signed with `sign`, a signed field edited, signed "
                  "again with the same key(s) (two entries per key id, stale first), the entries reversed by hand, legacy and DSSE: `sign "
                  "--verify` and `verify` must answer what the library answers on the same file. Directory shapes: the working directory of run/record, the metadata directory (-d, relative, absolute, "
                  "trailing slash), verify's working directory, link directory and layout file name are drawn from names with %, %s, %d, %2F, [1], "
